@@ -84,7 +84,7 @@ PROPS = {
         "stages": [{"kind": "cases", "name": "subscription-api", "driver": "SUBAPI", "n": {"quick": 200, "thorough": 4000}}, HUB_STAGE],
         "rule": "subscription-api: hubs with the subscription API on both transports; 1-4 subscribers with 1-4 selectors over the escaping alphabet (space, '+', '/', '%', "
                 "'?#', '.', '..', ';', non-ASCII, U+0000, templates, already-escaped), some gone, publishes in between; the collection, every per-topic collection "
-                "(plus one nobody uses), the dereference of every listed id by the URL the API returned, unknown selector / unknown subscriber pairs, If-None-Match, and "
+                "(plus one nobody uses), the dereference of every listed id by the URL the API returned, unknown selector / unknown subscriber pairs, If-None-Match (current and stale validators), HEAD on existing and absent resources, and "
                 "caller claims {exact URL, template, '*', unrelated, none, empty, the decoded form of an escaped URL, a template over the decoded form} on three URLs (one needing escaping); in 60% of the cases the history ends with a publish whose id the harness chose (to a topic somebody or nobody listens to) so that lastEventID / ETag are checked against an id known independently of the hub; judged against Model/SubApi.v (listing, deref, sub_url, can_receive). "
                 "non-trivial = at least two listed documents. hub-histories: " + HUB_RULE,
         "trusted": HUB_TRUST + ["gorilla/mux routing on the encoded path and net/http URL parsing: glue covered by the differential run only"],
@@ -92,7 +92,8 @@ PROPS = {
     },
     "C19": {
         "binaries": ["verifc"],
-        "stages": [{"kind": "cases", "name": "configurations", "driver": "C19", "binary": "verifc", "n": {"quick": 600, "thorough": 12000}}],
+        "stages": [{"kind": "cases", "name": "configurations", "driver": "C19", "binary": "verifc", "n": {"quick": 600, "thorough": 12000}},
+                   {"kind": "cases", "name": "shared-bolt-file", "driver": "C19PATH", "binary": "verifc", "n": {"quick": 2, "thorough": 8}}],
         "rule": "configurations: 60% Caddyfile blocks (0-14 mercure directives in random order with repeats: publisher_jwt / subscriber_jwt with keys {two HMAC secrets, an RSA "
                 "public key, empty} and algorithms {absent, empty, HS256/384/512, RS256, ES256, XX, none}, anonymous, subscriptions, publish_origins / cors_origins over valid "
                 "and invalid origins, cookie_name, protocol_version_compatibility {7, 6, 8, 0}, the three timeouts, transport bolt/local as module or as legacy transport_url), "
@@ -101,7 +102,8 @@ PROPS = {
                 "(key, algorithm) tokens publish, which subscribe, anonymous subscription, subscription API present, the cookie name consulted (valid / garbage token under 4 names), "
                 "CORS header and cookie-authenticated publish from 4 origins, a public publish outside the publish claim (compatibility 7); plus the effective options struct "
                 "(timeouts, transport type, origins, cookie, flags) read through an accessor added at build time; MERCURE_TRANSPORT_URL is set in the environment in 20% of the cases. Compared with Model/Config.v and judged by cfg_spec_ok "
-                "(every permission in effect was asked for; refusals where required). non-trivial = accepted configuration",
+                "(every permission in effect was asked for; refusals where required). non-trivial = accepted configuration. shared-bolt-file: two mercure blocks provisioned in "
+                "one process whose Bolt transports name the same file with different sizes and bucket names: the second is refused (file lock) or retains what its own size says.",
         "trusted": ["caddyfile tokenizer, caddy.Context module loading, viper: glue exercised by the differential run only",
                     "key_ok / origin_ok oracles: tables computed by the harness's own rules (HMAC any key; RS256 iff the key is the RSA PEM; scheme://host[:port], * or null)",
                     "golang-jwt signs the candidate tokens; token verification itself is C03",
@@ -156,7 +158,11 @@ PROPS = {
             "rule": HUB_RULE + TRANS_RULE + " mass-close: 1025-2060 connected subscribers on each transport (more than any batch a transport might process at a time), "
                     "five of them gone before, then Hub.Stop: every stream ended by the hub, a later subscription and a later publish refused; judged by the specification "
                     "predicate alone (the hub model is not replayed on a thousand registrations).", "trusted": HUB_TRUST, "assumptions": []},
-    "C20": {"stages": [HUB_STAGE], "rule": HUB_RULE, "trusted": HUB_TRUST, "assumptions": []},
+    "C20": {"stages": [HUB_STAGE, {"kind": "cases", "name": "simultaneous", "driver": "GAUGE", "parallel": 4, "n": {"quick": 40, "thorough": 400}}],
+            "rule": HUB_RULE + " simultaneous: forty waves per hub of 8 clients connecting at the same moment, (every 8th wave) 4 publishers posting at the same moment, the 8 clients leaving at the "
+                    "same moment; after each the gauge must equal the number of open streams and the counters the accepted subscriptions / updates (unsteered concurrency: a "
+                    "supporting search; the theorems cover every schedule of the model).",
+            "trusted": HUB_TRUST, "assumptions": []},
     "C13": {
         "binaries": ["verifh", "verifs"],
         "stages": SUB_STAGES + [TRANS_STAGE, HUB_STAGE],
@@ -190,7 +196,7 @@ PROPS = {
         "rule": "EXHAUSTIVE product {absent, valid, invalid signature, malformed, duplicated}^3 over the Authorization header, the authorization query "
                 "parameter and the cookie (each valid credential carries different rights, so the effective identity is observable) x endpoint {publish POST, "
                 "subscribe GET, subscription API GET} x anonymous {on, off} x cookie name {default, custom}; plus, for a cookie alone on a POST, Origin "
-                "{absent, allowed, not allowed, 'null'} x Referer {absent, allowed, not allowed, unparsable} x publish origins {none, list, '*', list containing 'null'} x cookie {valid, invalid}. "
+                "{absent, allowed, not allowed, 'null'} x Referer {absent, allowed, not allowed, unparsable, allowed host with another port, allowed host with the other scheme} x publish origins {none, list, '*', list containing 'null'} x cookie {valid, invalid}. "
                 "Observed per case: three probes (publish topics / private deliveries / subscription URLs). non-trivial = at least two carriers present, or the CSRF rule in play",
         "trusted": ["net/http header, cookie and query parsing; url.Parse for the Referer (oracle table computed with url.Parse directly)", "JWT verification (C03)"],
         "assumptions": [],
@@ -228,7 +234,7 @@ PROPS = {
         "stages": [{"kind": "cases", "name": "lookups", "driver": "C11", "n": {"quick": 1500, "thorough": 20000}}],
         "rule": "sequences of 5-30 (topic, selector) lookups, and 2-4 goroutines sharing one store, against stores without cache, of size 0, tiny "
                 "(1-3 entries x 1-2 shards) and default; selectors: literals, every RFC 6570 operator/modifier, malformed templates; topics: expansions for "
-                "random values over unreserved, reserved (gen-delims, sub-delims) and never-literal characters, near misses, a literal prefix followed by reserved characters, strings around the cache-key separator '_' and pairs built to collide under key concatenation; every answer "
+                "random values over unreserved, reserved (gen-delims, sub-delims) and never-literal characters, near misses, a literal prefix followed by reserved characters, strings around the cache-key separator '_' and pairs built to collide under key concatenation; templates padded with blanks, tabs and newlines (not templates: they match only themselves); every answer "
                 "compared with the cached model and with a fresh uncached evaluation by the library. non-trivial = sequence has both true and false answers",
         "trusted": ["uritemplate + Go regexp as oracle (Section variable tmatch); layer B (the template language itself) is not modelled",
                     "hashicorp LRU modelled as a map that may forget any entry at any time"],
